@@ -57,6 +57,7 @@ pub fn classify(m: &RecipeM, f: &Features, st: &mut Stats) {
                             st.class(if t.qty.is_some() { "timer" } else { "timer-without-duration" })
                         }
                         TokM::Inline { .. } => st.class("inline-quantity"),
+                        TokM::Raw(_) => st.class("component-kept-as-text-in-text-mode"),
                         TokM::Escaped(_) => st.class("escaped-char"),
                         _ => {}
                     }
